@@ -1,6 +1,6 @@
 SPECIFICATION Spec
 CONSTANTS
-  RelayClasses = {"empty", "plain", "escape", "html", "nonascii", "long"}
+  RelayClasses = {"empty", "plain", "escape", "html", "nonascii", "long", "srcdict"}
 INVARIANTS RunAgrees Emit
 PROPERTIES Terminates
 CHECK_DEADLOCK FALSE
